@@ -280,9 +280,10 @@ class Report:
             "coverage": cov, "assumptions": self.assumptions, "wall_s": round(time.time() - self.t0, 2),
             "violations": len(self.violations), "notes": self.notes,
         }
-        os.makedirs(EVID, exist_ok=True)
-        with open(os.path.join(EVID, self.prop + ".json"), "w") as fh:
-            json.dump(ev, fh, indent=1, sort_keys=True, default=str)
+        if not os.environ.get("VERIF_NO_EVIDENCE"):      # (a replay does not rewrite the evidence of the check)
+            os.makedirs(EVID, exist_ok=True)
+            with open(os.path.join(EVID, self.prop + ".json"), "w") as fh:
+                json.dump(ev, fh, indent=1, sort_keys=True, default=str)
         if os.environ.get("VERIF_DUMP_VERDICTS"):
             with open(os.environ["VERIF_DUMP_VERDICTS"], "w") as fh:
                 json.dump(self.all_verdicts, fh, default=str)
